@@ -167,7 +167,7 @@ def model_check(cfgname, workers=None, timeout=3000, module="MC.tla"):
 HWM_RE = re.compile(r'<<"HWM", (\d+), (\d+)>>')
 
 
-def conformance(trace_path, workdir, name, consts=None, max_rounds=6):
+def conformance(trace_path, workdir, name, consts=None, max_rounds=6, timeout=None):
     """TLC trace validation against the design model (TraceRcProxy). Returns dict(accepted, drift=[tid...], states)."""
     lines = open(trace_path).read().splitlines(True)
     tids = []
@@ -188,8 +188,15 @@ def conformance(trace_path, workdir, name, consts=None, max_rounds=6):
         cfg = open(os.path.join(d, "TraceRcProxy.cfg")).read().replace('"trace.ndjson"', json.dumps(p))
         cfg = set_consts(cfg, consts)
         open(os.path.join(d, "TraceRcProxy.cfg"), "w").write(cfg)
-        rc, out = tlc("TraceRcProxy.tla", "TraceRcProxy.cfg", d, workers=1, timeout=1800,
-                      javaopts=["-Dtlc2.tool.queue.IStateQueue=StateDeque", "-Xss64m", "-XX:ParallelGCThreads=4"])
+        budget = timeout or int(os.environ.get("VERIF_CONF_TIMEOUT", "90"))
+        rc, out = tlc("TraceRcProxy.tla", "TraceRcProxy.cfg", d, workers=1, timeout=budget,
+                      javaopts=["-Dtlc2.tool.queue.IStateQueue=StateDeque", "-Xss64m", "-XX:ParallelGCThreads=4", "-Xmx6g"])
+        if rc == -9:
+            # the search for an explanation did not finish in its budget: neither accepted nor drift
+            shutil.rmtree(d, ignore_errors=True)
+            os.remove(p)
+            subprocess.run("pkill -f 'tlc2.TL[C].*%s' || true" % os.path.basename(d), shell=True)
+            break
         st, tr = tlc_stats(out)
         res["states"] += st
         res["transitions"] += tr
